@@ -293,7 +293,7 @@ func runC13(tier string) int {
 	t0 := time.Now()
 	w := buildWorker()
 	r := newHistResult("C13", tier)
-	kinds := []string{"CV", "IV", "CB", "CF", "CW", "CZ", "GE", "GB", "NW", "NF", "NB", "SD", "ST"}
+	kinds := []string{"CV", "IV", "CB", "CF", "CW", "CZ", "CX", "GE", "GX", "GB", "NW", "NF", "NB", "SD", "SP", "SM", "ST"}
 	langs := []int{2, 5, 8, 9, 10}
 	maxStates := 64
 	if tier == "thorough" {
@@ -355,7 +355,7 @@ func runC13(tier string) int {
 	r.Transitions = e.transitions
 	r.Evaluations = e.transitions
 	r.Distinct = int64(len(e.distinctOut))
-	r.Rule = "explicit-state BFS over call histories: alphabet = 13 operation kinds (valid/invalid validations, encodings, NewMnemonic over a scripted source swapped in and out, failing source, seed, String) x languages (quick: English, Japanese, Czech, Portuguese + unsupported 10; thorough: all ten + unsupported 10 and -1); every transition is executed in a fresh OS process by replaying the shortest history to the source state and then the operation; state = SHA-256 of a canonical dump of every package-level variable of bip39 and internal/wordlist; search runs to a fixpoint; plus the complete ordered first-use matrix (10x10 ordered language pairs, each followed by valid/invalid validations in all ten languages). Oracle per executed call: outcome (value, error class and text, panic) equals the outcome of the same call in a fresh process; caller buffers and earlier results unchanged at the end of the history. distinct_nontrivial = distinct (operation, outcome) pairs observed"
+	r.Rule = "explicit-state BFS over call histories: alphabet = 17 operation kinds (valid/invalid validations, the same string under every language, encodings, the same entropy under every language, NewMnemonic over a scripted source swapped in and out, failing source, seeds with shared mnemonic or shared passphrase, String) x languages (quick: English, Japanese, Czech, Portuguese + unsupported 10; thorough: all ten + unsupported 10 and -1); every transition is executed in a fresh OS process by replaying the shortest history to the source state and then the operation; state = SHA-256 of a canonical dump of every package-level variable of bip39 and internal/wordlist; search runs to a fixpoint; plus the complete ordered first-use matrix (10x10 ordered language pairs, each followed by valid/invalid validations in all ten languages). Oracle per executed call: outcome (value, error class and text, panic) equals the outcome of the same call in a fresh process; caller buffers and earlier results unchanged at the end of the history. distinct_nontrivial = distinct (operation, outcome) pairs observed"
 	r.Extra["operations"] = len(e.ops)
 	r.Extra["first_use_matrix_histories"] = len(matrix)
 	r.Extra["reached_fixpoint"] = r.Exhaustive
